@@ -21,7 +21,7 @@ UNIT = dict(
     bounds={"arrays": "<= 3 symbolic elements (capacity 4), arbitrary u64 bases and offsets", "bitmaps": "<= 32 bits (4 bytes)",
             "segments": "pre-states built directly: Range (any), RangeWithHoles (<=2 holes), RangeWithBitmap (<=16 slots), SortedArray/Array (<=3 values)",
             "unwind": 9},
-    outside=["U64Segment::delete/mask/slice and from_slice on symbolic input beyond 3 values", "RowIdSequence::delete/mask/slice/select/rechunk_sequences and RowIdIndex (index.rs: decompose_sequence, rangemap, Arc): nested Vec + boxed iterators + float size estimates did not fit"],
+    outside=["U64Segment::get on RangeWithHoles / RangeWithBitmap (`self.iter().nth(i)` over a boxed filter iterator: did not finish in 900 s even for 4 ids)", "bitmaps longer than 32 bits (BitmapSlice::count_ones middle-byte loop beyond 2 bytes)", "U64Segment::delete/mask/slice and from_slice on symbolic input beyond 3 values", "RowIdSequence::delete/mask/slice/select/rechunk_sequences and RowIdIndex (index.rs: decompose_sequence, rangemap, Arc): nested Vec + boxed iterators + float size estimates did not fit"],
 )
 
 ERR = """#[derive(Debug, PartialEq)]
